@@ -31,9 +31,16 @@ def _strategy(stat):
             D, R = draw(st.sampled_from(shapes))
             kappa = draw(st.sampled_from([10.0, 1e3, 1e4]))
             n = 200000 if stat else draw(st.sampled_from([1, 7, 2000]))
-            return {"D": D, "R": R, "n": n, "stat": stat, "p": draw(gen.measure_params("pdf", R, D, kappa)),
+            case = {"D": D, "R": R, "n": n, "stat": stat, "p": draw(gen.measure_params("pdf", R, D, kappa)),
                     "seed": draw(st.integers(0, 2**31 - 1)), "seed2": draw(st.integers(0, 2**31 - 1)),
                     "typed_key": draw(st.booleans()), "diag": False}
+            # the law is that of the object's CURRENT parameters: sometimes the density is sampled, then updated in
+            # place, then sampled again
+            if not stat and draw(st.sampled_from([False, False, True])):
+                k = draw(st.integers(1, R))
+                case["update_idx"] = list(draw(st.permutations(list(range(R))))[:k])
+                case["update"] = draw(gen.measure_params("pdf", k, D, kappa))
+            return case
         return s()
     return make
 
@@ -111,6 +118,18 @@ def _run(case):
     ok, p = lib(fails, "construct_pdf", libx.make_measure, "pdf", case["p"])
     if not ok:
         return fails
+    if case.get("update") is not None:
+        import jax.numpy as jnp
+
+        lib(fails, "sample_before_update", lambda: p.sample(_key(case, case["seed2"]), 2))
+        ok, d = lib(fails, "construct_update", libx.make_measure, "pdf", case["update"])
+        if ok:
+            ok, _ = lib(fails, "update", lambda: p.update(jnp.array(case["update_idx"]), d))
+        if not ok:
+            return fails
+        mu, Sig = mu.copy(), Sig.copy()
+        mu[np.array(case["update_idx"])] = np.asarray(case["update"]["mu"], float)
+        Sig[np.array(case["update_idx"])] = np.asarray(case["update"]["Sigma"], float)
     ok, x = lib(fails, "sample", lambda: np.asarray(p.sample(_key(case, case["seed"]), n)))
     if not ok:
         return fails
@@ -171,7 +190,7 @@ def _nontrivial(case):
 
 
 def _labels(case):
-    out = [f"n={case['n']}", "typed_key" if case["typed_key"] else "legacy_key"]
+    out = [f"n={case['n']}", "typed_key" if case["typed_key"] else "legacy_key", "after_update" if case.get("update") is not None else "fresh"]
     if "_structural" in case:
         out.append("structural_match" if case["_structural"] else "structural_mismatch->statistical")
     return out
